@@ -88,7 +88,7 @@ type c32Seq struct {
 
 // C32: MessageBuffer batching.
 //
-// ops: new <queue capacity> <maxSize> | send <len> <seed> | fire | close | recv | dec <hex>
+// ops: new <queue capacity> <maxSize> | send <len> <seed> | fire | late | close | recv | dec <hex>
 func TestVerifC32(t *testing.T) {
 	r := verifh.Start("C32")
 	defer r.Finish()
@@ -168,6 +168,20 @@ func TestVerifC32(t *testing.T) {
 		case len(f) == 1 && f[0] == "fire":
 			// the timer (1h timeout here) calls the callback only while armed, and once
 			if !c32Armed(m) {
+				// the real callback can still run unarmed (dispatched, blocked on the mutex while
+				// Send cancelled the timer): run it and require a no-op
+				m.l.Lock()
+				ps0, np0 := m.pendingSize, len(m.pending)
+				m.l.Unlock()
+				s.fire()
+				m.l.Lock()
+				ps1, np1 := m.pendingSize, len(m.pending)
+				m.l.Unlock()
+				if ps1 != ps0 || np1 != np0 || len(m.Queue) != q0 || s.log.dropped != d0 || c32Armed(m) {
+					r.ViolationAt("unarmed-callback-not-a-noop", s.from, r.Line()+1,
+						"callback run while the timer is unarmed changed the buffer: pending %d->%d, queue %d->%d", np0, np1, q0, len(m.Queue))
+				}
+				r.Count("fire:unarmed-callback-run")
 				res = "notarmed"
 				break
 			}
@@ -176,6 +190,16 @@ func TestVerifC32(t *testing.T) {
 			m.l.Unlock()
 			s.fire()
 			m.pendingTimer.Cancel() // one-shot: a fired timer stays quiet until the next SetTimeoutIn
+			res = "ok"
+			if cl {
+				res = "closed"
+			}
+		case len(f) == 1 && f[0] == "late":
+			// a callback dispatched by an earlier arming runs now; it does not consume the arming
+			m.l.Lock()
+			cl := m.closed
+			m.l.Unlock()
+			s.fire()
 			res = "ok"
 			if cl {
 				res = "closed"
@@ -314,8 +338,12 @@ func c32Generate(r *verifh.Run) []string {
 	add("send 8 3")
 	add("send 3 4")
 	add("send 8 5")
+	add("late")
 	add("fire")
+	add("fire")
+	add("late")
 	drain()
+	add("late")
 	// ... a message of exactly maxSize, and the varint boundary 127/128
 	add("new 4 10")
 	add("send 10 1")
@@ -391,6 +419,8 @@ func c32Generate(r *verifh.Run) []string {
 				add("recv")
 			case k < recvBias+8:
 				add("fire")
+			case k < recvBias+11:
+				add("late")
 			default:
 				var n int
 				switch rng.Intn(7) {
